@@ -1,0 +1,25 @@
+//go:build verif
+
+package fp
+
+import "github.com/csgura/fp/internal/atomic"
+
+// Verification hooks (build tag verif only). Nothing changes while no hook is set.
+
+var verifSpawnHook func(run func()) bool
+
+// VerifSetSpawn installs a hook that may take over tasks of the default executor.
+func VerifSetSpawn(h func(run func()) bool) { verifSpawnHook = h }
+
+// VerifSpawn offers run to the installed hook; false means "not taken".
+func VerifSpawn(run func()) bool {
+	if h := verifSpawnHook; h != nil {
+		return h(run)
+	}
+	return false
+}
+
+func verifSpawn(run func()) bool { return VerifSpawn(run) }
+
+// VerifSetAtomicHook installs a hook called before every atomic step of a Promise.
+func VerifSetAtomicHook(h func(op string)) { atomic.VerifHook = h }
